@@ -1456,6 +1456,8 @@ func (state *pexState) add(p pex.Peer) {
 		if len(state.pendingDel) == 0 {
 			state.pendingDel = nil
 		}
+		// the peer still has it, see del
+		state.sent = append(state.sent, p)
 		return
 	}
 
